@@ -426,7 +426,12 @@ def _drop_identity_assignments(tree):
                                  if ast.unparse(a) != ast.unparse(b)]
                         if not pairs:
                             continue
-                        if len(pairs) < len(t.elts) and all(
+                        tnames = {ast.unparse(a) for a in t.elts}
+                        indep = not any(ast.unparse(x) in tnames
+                                        for _, b in pairs
+                                        for x in ast.walk(b) if isinstance(
+                                            x, (ast.Name, ast.Attribute)))
+                        if indep and all(
                                 isinstance(b, (ast.Name, ast.Constant,
                                                ast.Attribute))
                                 for _, b in pairs):
@@ -469,6 +474,49 @@ def _drop_dead_helpers(tree, modname, known):
                 body.remove(f)
                 if not body:
                     body.append(ast.Pass())
+
+
+def _ends(stmts):
+    if not stmts:
+        return False
+    last = stmts[-1]
+    if isinstance(last, (ast.Return, ast.Raise)):
+        return True
+    if isinstance(last, ast.If) and last.orelse:
+        return _ends(last.body) and _ends(last.orelse)
+    return False
+
+
+def _single_exit(stmts, target):
+    """the statements with every `return E` turned into `target = E`, the
+    code after a returning `if` moved into the other branch; None if the
+    returns sit in loops, try blocks and the like"""
+    out = []
+    for i, st in enumerate(stmts):
+        rest = stmts[i + 1:]
+        if isinstance(st, ast.Return):
+            out.append(ast.Assign(targets=[_clone(target)],
+                                  value=st.value or ast.Constant(None)))
+            return out
+        has_ret = any(isinstance(x, ast.Return) for x in ast.walk(st))
+        if not has_ret:
+            out.append(st)
+            continue
+        if not isinstance(st, ast.If):
+            return None
+        if _ends(st.body):
+            a = _single_exit(st.body, target)
+            b = _single_exit(list(st.orelse) + rest, target)
+        elif st.orelse and _ends(st.orelse):
+            a = _single_exit(list(st.body) + rest, target)
+            b = _single_exit(st.orelse, target)
+        else:
+            return None
+        if a is None or b is None:
+            return None
+        out.append(ast.If(test=st.test, body=a or [ast.Pass()], orelse=b))
+        return out
+    return out
 
 
 def _functions_with_owner(tree):
@@ -732,7 +780,16 @@ def _inline_in_function(func, owner, classes, modfuncs, known):
                 body = body + [ast.copy_location(ast.Return(value=None), st)]
             return pro + body
         if len(rets) > (1 if last_is_ret else 0):
-            return None          # early returns: cannot splice
+            # early returns: bring the body into single-exit form
+            if kind != "assign":
+                return None
+            conv = _single_exit(body, st.targets[0])
+            if conv is None:
+                return None
+            for b_ in conv:
+                ast.copy_location(b_, st)
+                ast.fix_missing_locations(b_)
+            return pro + conv
         if kind == "expr":
             if last_is_ret:
                 rv = body[-1].value
@@ -861,6 +918,23 @@ def inline_temporaries(func, known_locals):
             has_call = any(isinstance(y, ast.Call) for y in ast.walk(v))
             if has_call and len(loads) > 1:
                 continue
+            # a freshly built object has an identity: it is not duplicated,
+            # and it is not substituted where it would be mutated
+            fresh = any(isinstance(y, (ast.List, ast.Dict, ast.Set,
+                                       ast.ListComp, ast.DictComp,
+                                       ast.SetComp, ast.GeneratorExp))
+                        for y in ast.walk(v)) or has_call
+            if fresh:
+                if len(loads) > 1:
+                    continue
+                mutated = False
+                for x in ast.walk(func):
+                    if isinstance(x, (ast.Subscript, ast.Attribute)) and \
+                            isinstance(x.ctx, (ast.Store, ast.Del)) and \
+                            x.value is loads[0]:
+                        mutated = True
+                if mutated:
+                    continue
             # all uses after the assignment, in the same or a nested block
             if any((l.lineno, l.col_offset) < (st.lineno, st.col_offset)
                    for l in loads if hasattr(l, "lineno")):
@@ -990,7 +1064,9 @@ def inline_block_temporaries(func, known_locals):
         for lst, i, st in sites:
             v = st.value
             if any(isinstance(y, (ast.Await, ast.Yield, ast.YieldFrom,
-                                  ast.NamedExpr)) for y in ast.walk(v)):
+                                  ast.NamedExpr, ast.List, ast.Dict, ast.Set,
+                                  ast.ListComp, ast.DictComp, ast.SetComp))
+                   for y in ast.walk(v)):
                 ok = False
                 break
             for j in range(i + 1, len(lst)):
